@@ -375,6 +375,24 @@ func DrawSODSpec(s Source, files map[int][]byte) SODSpec {
 			sp.Hashes = append(sp.Hashes, ldsview.DGHash{DG: dg, Hash: fill(s, size)})
 		}
 	}
+	// DataGroupHashValues is a SEQUENCE OF: nothing obliges an issuer to list the data groups in
+	// ascending order (reversed, rotated and shuffled lists are all well-formed)
+	if n := len(sp.Hashes); n > 1 {
+		switch s.Intn(6) {
+		case 0:
+			for i, j := 0, n-1; i < j; i, j = i+1, j-1 {
+				sp.Hashes[i], sp.Hashes[j] = sp.Hashes[j], sp.Hashes[i]
+			}
+		case 1:
+			k := 1 + s.Intn(n-1)
+			sp.Hashes = append(append([]ldsview.DGHash{}, sp.Hashes[k:]...), sp.Hashes[:k]...)
+		case 2:
+			for i := n - 1; i > 0; i-- {
+				j := s.Intn(i + 1)
+				sp.Hashes[i], sp.Hashes[j] = sp.Hashes[j], sp.Hashes[i]
+			}
+		}
+	}
 	return sp
 }
 
